@@ -4,7 +4,9 @@ import (
 	"errors"
 	"fmt"
 	"io"
+	"net"
 	"testing"
+	"time"
 
 	gomavlib "github.com/bluenviron/gomavlib/v3"
 	"github.com/bluenviron/gomavlib/v3/pkg/dialects/ardupilotmega"
@@ -162,6 +164,128 @@ func TestC10ChannelsThatComeBack(t *testing.T) {
 		rec.Case(withFrames >= 2, evid.HashS(desc), dedupStr(cls)...)
 		if withFrames >= 2 && rec.WantSample("lives") {
 			rec.Sample("lives", desc)
+		}
+	})
+}
+
+// TestC10BroadcastEndpointHearsEveryone: a broadcast endpoint is one channel for everybody on the segment. Frames
+// reach it from other programs on the same host (same address, other ports) and from another address; each valid
+// frame is one frame event on that channel, per sender in the order sent, whoever sent it.
+func TestC10BroadcastEndpointHearsEveryone(t *testing.T) {
+	rec := evid.New(t, "C10", "an EndpointUDPBroadcast bound to 127.0.0.1:port (or :port) receives 5..40 tagged frames each from 2..4 senders: UDP sockets on 127.0.0.1 (the endpoint's own address, other ports) and on 127.0.0.2, sending in generated interleavings; one open event, then exactly one frame event per frame on that one channel, per sender in the order sent, none lost; non-trivial = a sender on the endpoint's own address; distinct by hash of the parameters")
+	rec.Require("sender-on-the-endpoint's-own-address")
+	evid.Check(t, rec, evid.N(40, 200), func(t *rapid.T) {
+		drawNodeInit(t)
+		ns := rapid.IntRange(2, 4).Draw(t, "senders")
+		per := rapid.IntRange(5, 40).Draw(t, "frames_per_sender")
+		anyAddr := rapid.Bool().Draw(t, "endpoint_bound_to_all_addresses")
+		desc := fmt.Sprintf("senders=%d framesPerSender=%d endpointBoundToAllAddresses=%v", ns, per, anyAddr)
+		port := sim.FreePort()
+		local := sim.Addr(port)
+		if anyAddr {
+			local = fmt.Sprintf(":%d", port)
+		}
+		n := &gomavlib.Node{Endpoints: []gomavlib.EndpointConf{gomavlib.EndpointUDPBroadcast{BroadcastAddress: fmt.Sprintf("127.255.255.255:%d", sim.FreePort()), LocalAddress: local}},
+			Dialect: ardupilotmega.Dialect, OutVersion: gomavlib.V2, OutSystemID: nodeSys, HeartbeatDisable: true}
+		if err := initNode(&n); err != nil {
+			t.Fatalf("BROKEN: %v", err)
+		}
+		r := sim.StartRecorder(n, sim.Pacing{Kind: "fast"}, nil)
+		defer func() {
+			closeNode(n, bound) //nolint:errcheck
+			r.WaitClosed(bound)
+		}()
+		fail := func(format string, a ...interface{}) {
+			msg := desc + "\n" + fmt.Sprintf(format, a...)
+			evid.ReplayNote("C10", "TestC10BroadcastEndpointHearsEveryone", msg)
+			t.Fatalf("%s", msg)
+		}
+		var socks []net.PacketConn
+		defer func() {
+			for _, s := range socks {
+				s.Close()
+			}
+		}()
+		dst, _ := net.ResolveUDPAddr("udp4", sim.Addr(port))
+		for i := 0; i < ns; i++ {
+			ip := "127.0.0.1"
+			if i == ns-1 && ns > 2 {
+				ip = "127.0.0.2"
+			}
+			pc, err := net.ListenPacket("udp4", ip+":0")
+			if err != nil {
+				t.Fatalf("BROKEN: sender socket on %s: %v", ip, err)
+			}
+			socks = append(socks, pc)
+		}
+		sent := make([]int, ns)
+		total := ns * per
+		for k := 0; k < total; k++ {
+			i := rapid.IntRange(0, ns-1).Draw(t, "next_sender")
+			for sent[i] >= per {
+				i = (i + 1) % ns
+			}
+			if _, err := socks[i].WriteTo(tagged(byte(i+1), sent[i], "debug", true, nil, 0).Bytes(), dst); err != nil {
+				t.Fatalf("BROKEN: send: %v", err)
+			}
+			sent[i]++
+			if k%8 == 7 {
+				// loopback datagrams are not lost as long as the receiver's socket buffer has room: stay below it
+				r.WaitFor(bound, func(recs []sim.Rec) bool {
+					c := 0
+					for _, e := range recs {
+						if _, ok := e.Ev.(*gomavlib.EventFrame); ok {
+							c++
+						}
+					}
+					return c >= k-16
+				})
+			}
+		}
+		r.WaitFor(3*time.Second, func(recs []sim.Rec) bool {
+			c := 0
+			for _, e := range recs {
+				if _, ok := e.Ev.(*gomavlib.EventFrame); ok {
+					c++
+				}
+			}
+			return c >= total
+		})
+		recs := r.Snapshot()
+		if err := checkBrackets(recs); err != nil {
+			fail("%v", err)
+		}
+		got := make([][]int, ns)
+		var chans []*gomavlib.Channel
+		for _, e := range recs {
+			switch ev := e.Ev.(type) {
+			case *gomavlib.EventChannelOpen:
+				chans = append(chans, ev.Channel)
+			case *gomavlib.EventFrame:
+				tag, idx, ok := identify(ev.Frame)
+				if !ok || int(tag) < 1 || int(tag) > ns {
+					fail("a frame event with content nobody sent")
+				}
+				got[tag-1] = append(got[tag-1], idx)
+			case *gomavlib.EventParseError:
+				fail("parse error although only valid frames were sent: %v", ev.Error)
+			}
+		}
+		if len(chans) != 1 {
+			fail("%d channels opened on one broadcast endpoint", len(chans))
+		}
+		for i := range got {
+			var want []int
+			for k := 0; k < per; k++ {
+				want = append(want, k)
+			}
+			if fmt.Sprint(got[i]) != fmt.Sprint(want) {
+				fail("sender %d (%s) sent the frames 0..%d to the endpoint; frame events arrived for %v", i, socks[i].LocalAddr(), per-1, got[i])
+			}
+		}
+		rec.Case(true, evid.HashS(desc+fmt.Sprint(sent)), "sender-on-the-endpoint's-own-address")
+		if rec.WantSample("broadcast") {
+			rec.Sample("broadcast", desc)
 		}
 	})
 }
